@@ -66,7 +66,7 @@ Definition rw_k_Pages : list N := [80; 97; 103; 101; 115].
 Definition rw_k_Encrypt : list N := [69; 110; 99; 114; 121; 112; 116].
 Definition rw_catalog_ok (d : doc) : Prop :=
   exists r i cd p ip pd,
-    In (k_Root, ORef r) (d_trailer d) /\ is_null_val (d_objects d) (ORef r) = false /\
+    find (fun kv => beqb (fst kv) k_Root) (d_trailer d) = Some (k_Root, ORef r) /\ is_null_val (d_objects d) (ORef r) = false /\
     find_obj (d_objects d) r = Some i /\ i_stream i = None /\ i_val i = ODict cd /\
     In (rw_k_Type, OName rw_k_Catalog) cd /\
     In (rw_k_Pages, ORef p) cd /\ is_null_val (d_objects d) (ORef p) = false /\
